@@ -244,6 +244,17 @@ def run(ctx):
                 x = float(rng.choice([0.0, rng.uniform(0, 100), rng.uniform(0, 3), 10.0, 3.0103]))
                 l = float(rng.choice([0.0, rng.random(), 0.5, 1 - 1e-9, 1e-12]))
                 case.update(db=x, loss=l)
+                if rng.random() < 0.2:
+                    # integral dB values in the other numeric types a caller may hold them in
+                    xi = int(rng.choice([0, 1, 3, 10, 20, 30]))
+                    ty = [int, np.int64, np.int32, np.uint8, np.uint16, np.float32, np.float64][int(rng.integers(7))]
+                    ctx.bucket("db_value_as:" + ty.__name__)
+                    case.update(db=xi, db_type=ty.__name__)
+                    got_ = lw.db_loss_to_decimal(ty(xi))
+                    law(abs(got_ - (1 - 10 ** (-xi / 10))) <= 1e-6, f"db_loss_to_decimal({ty.__name__}({xi})) = {got_}", case, "db")
+                    if xi == 0 or ty in (int, np.int64, np.uint8):
+                        back_ = lw.decimal_to_db_loss(ty(0)) if xi else lw.decimal_to_db_loss(ty(0))
+                        law(back_ == 0, f"decimal_to_db_loss({ty.__name__}(0)) = {back_}", case, "db")
                 d = lw.db_loss_to_decimal(x)
                 law(0 <= d < 1 and abs(lw.decimal_to_db_loss(d) - x) <= 1e-6 * (1 + x) * max(1.0, 10 ** (x / 10) * 1e-9),
                     f"decimal_to_db_loss(db_loss_to_decimal({x})) = {lw.decimal_to_db_loss(d)}", case, "db")
